@@ -378,7 +378,25 @@ def gen_program(rng, nfuncs=None, depth=None, nfiles=None, twins=True, twin_mode
                 cl = ['def %s(n): a = n + %d; a *= 2; return a' % (cn, k)]
             feats.add('compact')
             compact.append((cn, 'plain', False, cl))
-    allf = list(funcs) + ([twin] if twin else []) + extra + compact
+    # closures made by one factory (one code object, several function objects), one calling the other: `ha(n)` spends its time in `hb`
+    closures = []
+    if opts and opts.get('closures') and rng.fork('closures').chance(1, 2):
+        feats.add('closure-chain')
+        rc = rng.fork('closures2')
+        cl = ['def mk(k, nxt=None):',
+              '    def h(n):',
+              '        a = n + k',
+              '        tick(%d)' % (rc.below(40) + 1),
+              '        if nxt is not None:',
+              '            a += nxt(n)',
+              '        a += (tick(%d) or 1)' % (rc.below(40) + 1),
+              '        return a',
+              '    return h',
+              '',
+              'hb = mk(2)',
+              'ha = mk(1, hb)']
+        closures.append(('mk', 'plain', False, cl))
+    allf = list(funcs) + ([twin] if twin else []) + extra + compact + closures
     chunks = [[] for _ in range(nfiles)]
     for i, f in enumerate(allf):
         if f in extra:
@@ -410,10 +428,17 @@ def gen_program(rng, nfuncs=None, depth=None, nfiles=None, twins=True, twin_mode
             src.extend(f[3])
             src.append('')
             flist.append([fname, f[0], f[1]])
+            if f[0] == 'mk' and closures and f is closures[0]:
+                flist.append([fname, 'ha', 'plain'])
+                flist.append([fname, 'hb', 'plain'])
         files.append([fname, '\n'.join(src) + '\n'])
     # driver: call every function with a few arguments, catching everything
     d = ['def driver(n):', '    out = []']
+    if closures:
+        d += ['    out.append(ha(n))', '    out.append(hb(n + 1))']
     for f in allf:
+        if closures and f is closures[0]:
+            continue            # the factory returns function objects (their repr holds an address); ha / hb are called above
         for arg in ('n', '(n + 2) % 5'):
             d.append('    try:')
             if f[1] in ('plain', 'rec'):
@@ -435,4 +460,5 @@ def gen_program(rng, nfuncs=None, depth=None, nfiles=None, twins=True, twin_mode
     d.append('    return out')
     files.append(['prog_main.py', '\n'.join(d) + '\n'])
     flist.append(['prog_main.py', 'driver', 'plain'])
-    return {'files': files, 'funcs': flist, 'driver': 'driver', 'features': sorted(feats)}
+    rec_names = sorted({f[0] for f in allf if f[1] == 'rec'} | {f[0] for f in compact if any('%s(n - 1)' % f[0] in l for l in f[3])})
+    return {'files': files, 'funcs': flist, 'driver': 'driver', 'features': sorted(feats), 'recursive': rec_names}
